@@ -98,7 +98,7 @@ impl Cfg {
                     let pj = pj.set("mode", J::s("sched")).set("budget", J::i(*budget)).set("poll_yields", J::Bool(*poll_yields)).set("cache_yields", J::Bool(*cache_yields));
                     match strategy {
                         Strategy::Replay(l) => pj.set("strategy", J::s("replay")).set("grants", J::ints(l)),
-                        Strategy::Prefix(l) => pj.set("strategy", J::s("prefix")).set("grants", J::ints(l)),
+                        Strategy::Prefix(l, rot) => pj.set("strategy", J::s(if *rot { "prefix-rotating" } else { "prefix-sticky" })).set("grants", J::ints(l)),
                         Strategy::Random(s) => pj.set("strategy", J::s("random")).set("seed", J::Int(*s as i64)),
                         Strategy::Pct { seed, d, est_len } => pj.set("strategy", J::s("pct")).set("seed", J::Int(*seed as i64)).set("d", J::i(*d)).set("est_len", J::i(*est_len)),
                     }
